@@ -126,6 +126,10 @@ fn run_case<G: AffineRepr>(env: &Env<G>, c: &Case) -> CaseOut {
             objs.push(Obj { class, name: nm, prog: prog.clone(), vs: rp.vs, m: rp.proof });
         }
     }
+    // NOTE: statements whose commitments lie outside the prime-order subgroup (possible on curve25519,
+    // the verifier takes any point) are deliberately NOT part of the corpus: scalars are field elements
+    // mod l while a torsion component only sees them mod 8, so the value of the relations depends on how
+    // an implementation groups its scalar products; no sound reference verdict exists (DESIGN.md §11).
     for ob in objs {
         if let Some(only) = &c.only {
             if *only != ob.name {
